@@ -75,6 +75,7 @@ def grid_specs(n_dim, quick):
         cells = [(16, 16, 16), (30, 12, 20)] if quick else [(10, 10, 10), (24, 24, 24), (40, 16, 25), (12, 40, 30)]
     specs = [("cells", list(c)) for c in cells]
     specs.append(("scalar", 0.1 if n_dim == 2 else 0.4))
+    specs.append(("scalar", 1))     # python int cell size on integer limits: integer-typed grid arrays
     return specs
 
 
